@@ -81,6 +81,9 @@ def configs(tier, seed):
                 forms = ("vec*scalar", "scalar*vec", "vec*vec") if op == "mul" else ("vec/scalar",)
                 cfgs.append(dict(name=f"pair{k} {op} {forms[(k + seed) % len(forms)]}", kind="binary", op=op, rat="", dim=0,
                                  mixed=forms[(k + seed) % len(forms)], **base))
+            if op == "matmul" and k < len(PAIRS) and pa + pb <= 3:
+                rat = ("A", "B", "AB")[(k + j) % 3]
+                cfgs.append(dict(name=f"pair{k} {op} rat={rat} dim=2", kind="binary", op=op, rat=rat, dim=2, **base))
             if op != "matmul" and (k < len(PAIRS) or (k + j + seed) % 3 == 0) and pa + pb <= 3:
                 rat = ("A", "B", "AB")[(k + j) % 3]
                 cfgs.append(dict(name=f"pair{k} {op} rat={rat} dim=0", kind="binary", op=op, rat=rat, dim=0, **base))
